@@ -48,6 +48,14 @@ def det_urandom(w, n):
     return out
 
 
+def _np(path):
+    """the file-system object a path string names: separators collapsed, '.' components and a trailing separator dropped (the
+    spelling a caller used is kept in what is handed back to it, e.g. by walk)"""
+    if isinstance(path, str) and path:
+        return posixpath.normpath(path)
+    return path
+
+
 class ModelFS:
     def __init__(self, world):
         self.w = world
@@ -58,16 +66,18 @@ class ModelFS:
         return ({k: v.copy() for k, v in self.files.items()}, set(self.dirs))
 
     def add_dir(self, d):
+        d = _np(d)
         while d and d != '/':
             self.dirs.add(d)
             d = posixpath.dirname(d)
 
     def add_file(self, path, content=b'', size=None, complete=True, exists=True):
+        path = _np(path)
         self.add_dir(posixpath.dirname(path))
         self.files[path] = MFile(content, len(content) if size is None else size, complete, False, exists)
 
     def has(self, path):
-        f = self.files.get(path)
+        f = self.files.get(_np(path))
         if f is None:
             return False
         e = f.exists
@@ -79,12 +89,13 @@ class ModelFS:
 
     def exists_z(self, path):
         """z3 Bool: the file exists (and is complete)"""
-        f = self.files.get(path)
+        f = self.files.get(_np(path))
         if f is None:
             return False
         return f.exists
 
     def listdir(self, d):
+        d = _np(d)
         fs = sorted(p[len(d) + 1:] for p in list(self.files) if posixpath.dirname(p) == d and self.has(p))
         ds = sorted(p[len(d) + 1:] for p in self.dirs if posixpath.dirname(p) == d)
         return ds, fs
@@ -96,10 +107,11 @@ class ModelFS:
         out = []
         nn = sp.name.notnull()
         intern = sp.name.db.intern
+        spdir = _np(sp.dir)
         for p, f in self.files.items():
-            if not p.startswith(sp.dir + '/') or f.exists is False:
+            if not p.startswith(spdir + '/') or f.exists is False:
                 continue
-            fid = intern.intern(sqlmodel.TEXT, p[len(sp.dir) + 1:])
+            fid = intern.intern(sqlmodel.TEXT, p[len(spdir) + 1:])
             c = sx.simp(And(nn, EqR(sp.name.cell.num, fid)))
             if c is not False:
                 out.append((c, p, f, fid))
@@ -120,7 +132,7 @@ class ModelFS:
             n_ = sx.simp(path.name.cell.num)
             if not sx.isz(n_) and sx.simp(path.name.cell.cls) == sqlmodel.TEXT:
                 # a ground name: the very file (its bytes are needed e.g. to unpickle a file-backed value)
-                cpath = posixpath.join(path.dir, path.name.db.intern.lookup(sqlmodel.TEXT, n_))
+                cpath = _np(posixpath.join(path.dir, path.name.db.intern.lookup(sqlmodel.TEXT, n_)))
                 f_ = self.files.get(cpath)
                 if f_ is not None and (f_.exists is True or f_.exists is False) and not isinstance(f_.content, SymContent):
                     path = cpath
@@ -133,7 +145,7 @@ class ModelFS:
             cid = path.name.cell.num
             f = MFile(SymContent(cid), 0, True)
             return Reader(self, '<sym>', f, False, None, None)
-        path = _fspath(path)
+        path = _np(_fspath(path))
         self.w.event('fs', 'open:%s:%s' % (mode, path))
         if 'x' in mode or 'w' in mode:
             if 'x' in mode and self.has(path):
@@ -149,6 +161,7 @@ class ModelFS:
 
     def makedirs(self, d, mode=0o777, exist_ok=False):
         self.w.event('fs', 'makedirs:%s' % d)
+        d = _np(d)
         if d in self.dirs:
             if exist_ok:
                 return
@@ -167,13 +180,14 @@ class ModelFS:
         self.w.event('fs', 'remove:%s' % path)
         if not self.has(path):
             raise FileNotFoundError(2, 'No such file or directory', path)
-        del self.files[path]
+        del self.files[_np(path)]
 
     def rmdir(self, d):
         self.w.event('fs', 'rmdir:%s' % d)
         self._rmdir(d)
 
     def _rmdir(self, d):
+        d = _np(d)
         if d not in self.dirs:
             raise FileNotFoundError(2, 'No such file or directory', d)
         ds, fs = self.listdir(d)
@@ -191,8 +205,8 @@ class ModelFS:
                 n = sx.simp(d.path.name.cell.num)
                 if not sx.isz(n) and sx.simp(d.path.name.cell.cls) == sqlmodel.TEXT:
                     # a ground name (differential validation, concrete replays): prune emptied directories like the real call
-                    head = posixpath.dirname(posixpath.join(d.path.dir, d.path.name.db.intern.lookup(sqlmodel.TEXT, n)))
-                    while head and head != '/' and head != d.path.dir:
+                    head = posixpath.dirname(_np(posixpath.join(d.path.dir, d.path.name.db.intern.lookup(sqlmodel.TEXT, n))))
+                    while head and head != '/' and head != _np(d.path.dir):
                         try:
                             self._rmdir(head)
                         except OSError:
@@ -200,6 +214,7 @@ class ModelFS:
                         head = posixpath.dirname(head)
             return
         self.w.event('fs', 'removedirs:%s' % d)
+        d = _np(d)
         self._rmdir(d)
         head = posixpath.dirname(d)
         while head and head != '/':
@@ -215,7 +230,7 @@ class ModelFS:
         return self._walk(top, topdown)
 
     def _walk(self, top, topdown):
-        if top not in self.dirs:
+        if _np(top) not in self.dirs:
             return
         ds, fs = self.listdir(top)
         if topdown:
@@ -229,7 +244,7 @@ class ModelFS:
 
     def os_listdir(self, d):
         self.w.event('fs', 'listdir:%s' % d)
-        if d not in self.dirs:
+        if _np(d) not in self.dirs:
             raise FileNotFoundError(2, 'No such file or directory', d)
         ds, fs = self.listdir(d)
         return ds + fs
@@ -246,8 +261,8 @@ class ModelFS:
             return I(size) if sx.isz(size) else size
         self.w.event('fs', 'stat:%s' % path)
         if self.has(path):
-            return self.files[path].size
-        if path in self.dirs:
+            return self.files[_np(path)].size
+        if _np(path) in self.dirs:
             return 4096
         raise FileNotFoundError(2, 'No such file or directory', path)
 
@@ -256,10 +271,10 @@ class ModelFS:
             self.w.event('fs', 'stat:<sym>')
             return bool(B(sx.zB(self._sym_found(path))))
         self.w.event('fs', 'stat:%s' % path)
-        return self.has(path) or path in self.dirs
+        return self.has(path) or _np(path) in self.dirs
 
     def isdir(self, path):
-        return path in self.dirs
+        return _np(path) in self.dirs
 
 
 def _fspath(p):
@@ -772,6 +787,7 @@ class World(BaseWorld):
 
     # ---- databases
     def db_for(self, path):
+        path = _np(path)  # one database per file, however its path is spelled
         if path not in self.dbs:
             db = ModelDB(self)
             db.intern = self.interner
@@ -902,7 +918,7 @@ class World(BaseWorld):
 
     # ---- out-of-band damage (C17)
     def damage_file(self, cache, rel, deleted, new_size):
-        f = self.fs.files[posixpath.join(cache._directory, rel)]
+        f = self.fs.files[_np(posixpath.join(cache._directory, rel))]
         f.exists = sx.simp(sx.And(f.exists, sx.Not(deleted)))
         f.size = new_size
 
@@ -921,7 +937,7 @@ class World(BaseWorld):
 
     def dir_listing(self, cache):
         """{dir relative path: (subdirs, [(file, exists)])} for the oracle of check()"""
-        d0 = cache._directory
+        d0 = _np(cache._directory)
         out = {}
         for d in sorted(self.fs.dirs):
             if d == d0 or d.startswith(d0 + '/'):
@@ -950,7 +966,7 @@ class World(BaseWorld):
         return self._bind_con.bind(v)
 
     def file_content(self, cache, rel):
-        return self.fs.files[posixpath.join(cache._directory, rel)].content
+        return self.fs.files[_np(posixpath.join(cache._directory, rel))].content
 
 # ------------------------------------------------------------------ cache templates
 # The real Cache.__init__ is executed once (concretely, on an empty model database) per distinct
